@@ -548,6 +548,11 @@ impl Compiler<'_, '_, '_, '_> {
 // We also require that `extra_v` is None, since otherwise the user might have
 // additional values stashed somewhere.
 pub(crate) fn possible_gc(eval: &mut Evaluator) {
+    #[cfg(starlark_verif)]
+    if crate::verif::safepoint_forces_gc() && !eval.disable_gc {
+        // Same safety argument as below: we are at a module-level safepoint.
+        unsafe { eval.garbage_collect() }
+    }
     if !eval.disable_gc && eval.heap().allocated_bytes() >= eval.next_gc_level {
         // When we are at a module scope (as checked above) the eval contains
         // references to all values, so walking covers everything and the unsafe
